@@ -987,15 +987,19 @@ def run(tier):
     if ck.require(bool(rtr) and nplace > 100, "too few monitored placements: %d" % nplace):
         c17_prop_ck = ck
         wdv = c.workdir("C05", "real")
-        f = wdv / "traces.json"
-        f.write_text(json.dumps(rtr))
-        res = c.tlc("WalkTrace", "Walk_trace.cfg", workers=1, env={"TRACE_FILE": str(f)}, check=False, timeout=3000)
+        # the traces are validated in batches of at most 12 (one TLC run each): memory and time of a run stay bounded in the thorough tier
         rej = {}
-        for r in res.tagged("REJECTED"):
-            rej.update({int(t): int(m) for t, m in r})
-        if res.rc != 0 and not rej and not res.inv_violated:
-            raise c.MachineryError("WalkTrace failed: %s" % res.out[-2000:])
-        ck.add_tlc(res)
+        for b0 in range(0, len(rtr), 12):
+            f = wdv / ("traces_%d.json" % b0)
+            f.write_text(json.dumps(rtr[b0:b0 + 12]))
+            res = c.tlc("WalkTrace", "Walk_trace.cfg", workers=1, env={"TRACE_FILE": str(f)}, check=False, timeout=3000)
+            brej = {}
+            for r in res.tagged("REJECTED"):
+                brej.update({int(t) + b0: int(m) for t, m in r})
+            if res.rc != 0 and not brej and not res.inv_violated:
+                raise c.MachineryError("WalkTrace failed: %s" % res.out[-2000:])
+            rej.update(brej)
+            ck.add_tlc(res)
         ck.traces += len(rtr) - len(rej)
         for tid, matched in sorted(rej.items()):
             ev = rtr[tid - 1]["evs"][matched] if matched < len(rtr[tid - 1]["evs"]) else None
